@@ -7,6 +7,7 @@ coverage flags.
 import Driver.Common
 import Driver.C08
 import Driver.FC
+import Driver.Seq
 
 open Driver
 
@@ -14,6 +15,7 @@ inductive Eng where
   | none
   | c08 (s : Driver.C08.St)
   | fc (s : Driver.FC.St)
+  | seq (s : Driver.Seq.St)
 
 structure DState where
   eng : Eng := .none
@@ -32,6 +34,7 @@ def newEngine (hdr : Args) : Eng :=
   match hdr.get "engine" with
   | "c08" => .c08 {}
   | "fc" => .fc {}
+  | "seq" => .seq {}
   | _ => .none
 
 def stepEng (e : Eng) (l : Line) : Eng × List Msg :=
@@ -39,6 +42,7 @@ def stepEng (e : Eng) (l : Line) : Eng × List Msg :=
   | .none => (.none, [.corr "no engine"])
   | .c08 s => let (s', m) := Driver.C08.step s l; (.c08 s', m)
   | .fc s => let (s', m) := Driver.FC.step s l; (.fc s', m)
+  | .seq s => let (s', m) := Driver.Seq.step s l; (.seq s', m)
 
 partial def loop (h : IO.FS.Stream) (out : IO.FS.Stream) (st : DState) : IO Unit := do
   let line ← h.getLine
